@@ -24,7 +24,9 @@ ASSUMPTIONS = ["balance is decided by an independent matcher over the reference 
 SHARD_TIMEOUT = {"quick": 900, "thorough": 3600}
 BR = ["(", ")", "[", "]", "{", "}"]
 PAIR = {")": "(", "]": "[", "}": "{"}
-INJECT = ["@", "`", "\\", "/*", "//", "'", '"', "#define X 1\n", "#include <x.h>\n", "#if 1\n", "#error e\n", "#\n", "/* c */", "// c\n"]
+INJECT = ["@", "`", "\\", "/*", "//", "'", '"', "#define X 1\n", "#include <x.h>\n", "#if 1\n", "#error e\n", "#\n", "/* c */", "// c\n",
+          "#pragmatic ) ] }\n", "#pragma_once\n", "#pragma2 x\n", "# pragmas x\n", "#lineno 5\n", "#line5\n", "#linemarker\n", "#undef X\n",
+          "#warning w\n", "#ident \"x\"\n", "#elif 0\n", "#endif\n", "#pragma( x\n"]
 
 
 def balanced(tokens):
@@ -62,6 +64,23 @@ def judge(text, why, case):
                 "detail": {"why_malformed": why, "raised": f"{type(e).__name__}: {str(e)[:200]}", "text": text[:600]}}
     return {"kind": "malformed-input-accepted", "sig": why[:40], "case": case,
             "detail": {"why_malformed": why, "text": text[:800]}}
+
+
+def _foreign_directive(ln):
+    """A line that is a preprocessor directive other than #line / linemarker / #pragma (by its full directive name)."""
+    st = ln.strip()
+    if not st.startswith("#"):
+        return False
+    body = st[1:].lstrip(" \t")
+    j = 0
+    while j < len(body) and (body[j].isalnum() or body[j] in "_$"):
+        j += 1
+    name = body[:j]
+    if name in ("pragma", "line"):
+        return False
+    if name.isdigit() and name:
+        return False
+    return True
 
 
 def bracket_mutants(toks):
@@ -134,8 +153,7 @@ def run_shard(spec):
                 else:
                     text = render(mt, d2)
                 _, errs = rlex.scan(text)
-                foreign = any(ln.strip().startswith("#") and not ln.strip()[1:].strip().startswith(("pragma", "line")) and
-                              not ln.strip()[1:].strip()[:1].isdigit() for ln in text.split("\n"))
+                foreign = any(_foreign_directive(ln) for ln in text.split("\n"))
                 if not errs and not foreign:
                     cnt["skipped_lexically_clean"] += 1
                     continue
